@@ -19,7 +19,7 @@ from common import *
 PROP = 'C17'
 LEANFILES = ['PnVerif/Model/IdTable.lean', 'PnVerif/Lemmas/IdTable.lean', 'PnVerif/Props/C17.lean', 'Driver/C17.lean']
 KINDS_ANY = ['NDIMS', 'NVARS', 'DEFDIM', 'DEFVAR', 'PUTATT', 'ENDDEF', 'REDEF', 'SYNC', 'INQPATH', 'INQFORMAT']
-PROBE_KINDS = KINDS_ANY + ['CLOSE', 'ABORT', 'IPUT', 'ATTACH', 'DETACH', 'INQATT', 'GETVAR', 'WAITALL', 'BEGININDEP']
+PROBE_KINDS = KINDS_ANY + ['CLOSE', 'ABORT', 'IPUTFX', 'SETUP', 'ATTACH', 'DETACH', 'INQATT', 'GETVAR', 'WAITALL', 'BEGININDEP']
 ZERO_LEAK = 'malloc=0 type=0 comm=0 info=0 file=0'
 
 
@@ -41,6 +41,9 @@ class Gen:
         self.exists = set()
         self.closed_ids = set()
         self.dist = {}
+        self.io_paths = {}         # path k -> (io set up, nrecs) as left on disk
+        self.l2_fixed = False      # close frees the attached buffer: closing with an attached buffer / pending bput is leak-free
+        self.abort_cancels = False  # abort cancels pending requests: abort with pending requests is leak-free
 
     def send(self, line):
         self.drv.stdin.write(line + '\n')
@@ -77,7 +80,9 @@ class Gen:
             w = 0 if r.chance(1, 3) else 1
             a = self.send('OPEN %d %d' % (k, w)).split()
             if a[0] == '0':
-                self.open[int(a[1])] = dict(k=k, indef=False, rdonly=not w, pending=0, attached=False, nvars=None, fresh=False)
+                io, nrecs = self.io_paths.get(k, (False, 0))
+                self.open[int(a[1])] = dict(k=k, indef=False, rdonly=not w, pget=0, pput=0, pbput=0, precput=0, attached=False, nvars=None, fresh=False,
+                                            io=io, nrecs=nrecs)
                 self.count('open')
         elif k in self.exists and c == 6:
             self.send('CREATEX %d' % k)
@@ -85,7 +90,15 @@ class Gen:
         else:
             a = self.send('CREATE %d' % k).split()
             if a[0] == '0':
-                self.open[int(a[1])] = dict(k=k, indef=True, rdonly=False, pending=0, attached=False, nvars=0, fresh=True)
+                self.open[int(a[1])] = dict(k=k, indef=True, rdonly=False, pget=0, pput=0, pbput=0, precput=0, attached=False, nvars=0, fresh=True,
+                                            io=False, nrecs=0)
+                self.io_paths[k] = (False, 0)
+                if r.chance(1, 2):      # make the file ready for nonblocking I/O right away
+                    ncid = int(a[1])
+                    if self.send('SETUP %d' % ncid) == '0' and self.send('ENDDEF %d' % ncid) == '0':
+                        f = self.open[ncid]
+                        f['io'], f['indef'], f['fresh'] = True, False, False
+                        self.io_paths[k] = (True, 0)
                 self.exists.add(k)
                 self.count('create')
         if a[0] == '0' and int(a[1]) in self.closed_ids:
@@ -93,27 +106,81 @@ class Gen:
             self.closed_ids.discard(int(a[1]))
 
     def do_close(self, ncid, allow_abort=True):
+        r = self.rng
         f = self.open[ncid]
-        if f['attached']:
+        pend = f['pget'] + f['pput']
+        if f['attached'] and (not self.l2_fixed or r.chance(1, 2)):
+            if f['pbput']:
+                self.send('WAITALL %d' % ncid)     # a pending bput forbids detach
+                self.wait_done(f)
+                pend = 0
             self.send('DETACH %d' % ncid)
-        if allow_abort and f['pending'] == 0 and self.rng.chance(1, 4):
+            f['attached'] = False
+        if f['attached']:
+            self.count('close-with-attached-buffer')
+        if allow_abort and (pend == 0 or self.abort_cancels) and r.chance(1, 4):
             self.send('ABORT %d' % ncid)
-            self.count('abort')
+            self.count('abort-with-pending' if pend else 'abort')
             if f['fresh']:
                 self.exists.discard(f['k'])
+            elif not f['indef']:
+                self.io_paths[f['k']] = (f['io'], f['nrecs'])
         else:
             a = self.send('CLOSE %d' % ncid)
-            self.count('close-with-pending' if a == '-236' else 'close')
+            if a.startswith('-236'):
+                self.count('close-with-pending:' + ('get+put' if f['pget'] and f['pput'] else 'get' if f['pget'] else 'put') +
+                           ('+bput' if f['pbput'] else ''))
+            else:
+                self.count('close')
+            self.io_paths[f['k']] = (f['io'], f['nrecs'])
         del self.open[ncid]
         self.closed_ids.add(ncid)
+
+    def wait_done(self, f):
+        if f['precput']:
+            f['nrecs'] = max(f['nrecs'], 1)
+        f['pget'] = f['pput'] = f['pbput'] = f['precput'] = 0
 
     def do_call(self, ncid):
         r = self.rng
         f = self.open[ncid]
-        kinds = list(KINDS_ANY)
-        if not f['indef'] and not f['rdonly'] and f['nvars']:
-            kinds += ['IPUT'] * 6
-        kinds += ['DETACH'] if f['attached'] else ['ATTACH']
+        pend = f['pget'] + f['pput']
+        if f['io'] and not f['indef'] and r.chance(2, 3):
+            # nonblocking requests on fixed / record variables, large (8 KiB, byte-swapped in place) / small buffers
+            kinds = ['IGET fx', 'IGET sm'] + (['IGET rc', 'IGET rs'] if f['nrecs'] else [])
+            if not f['rdonly']:
+                kinds += ['IPUT fx', 'IPUT rc', 'IPUT sm', 'IPUT rs'] * 2
+                if f['attached'] and f['pbput'] < 4:
+                    kinds += ['BPUT fx', 'BPUT rc', 'BPUT sm', 'BPUT rs']
+            if pend and r.chance(1, 6):
+                a = self.send('WAITALL %d' % ncid)
+                self.count('call:WAITALL')
+                if a.startswith('0'):
+                    self.wait_done(f)
+                return
+            k = r.choice(kinds)
+            a = self.send('IOP %d %s' % (ncid, k))
+            self.count('iop:' + k)
+            if a == '0':
+                kind, var = k.split(' ')
+                if kind == 'IGET':
+                    f['pget'] += 1
+                else:
+                    f['pput'] += 1
+                    if kind == 'BPUT':
+                        f['pbput'] += 1
+                    if var[0] == 'r':
+                        f['precput'] += 1
+            return
+        kinds = [k for k in KINDS_ANY if not (pend and k in ('REDEF', 'ENDDEF'))]
+        if f['indef'] and not f['io'] and r.chance(2, 5):
+            kinds = ['SETUP']
+        elif f['indef'] and f['io'] and r.chance(2, 5):
+            kinds = ['ENDDEF']
+        if not f['attached']:
+            kinds += ['ATTACH'] * 2
+        elif not f['pbput']:
+            kinds += ['DETACH']
         kind = r.choice(kinds)
         a = self.send('%s %d' % (kind, ncid)).split()
         self.count('call:' + kind)
@@ -122,14 +189,15 @@ class Gen:
             return
         if kind == 'ENDDEF':
             f['indef'], f['fresh'] = False, False
+            self.io_paths[f['k']] = (f['io'], f['nrecs'])
         elif kind == 'REDEF':
             f['indef'] = True
         elif kind == 'DEFVAR':
             f['nvars'] = (f['nvars'] or 0) + 1
         elif kind == 'NVARS':
             f['nvars'] = int(a[1])
-        elif kind == 'IPUT':
-            f['pending'] += 1
+        elif kind == 'SETUP':
+            f['io'] = True
         elif kind == 'ATTACH':
             f['attached'] = True
         elif kind == 'DETACH':
@@ -190,7 +258,25 @@ def directed(nmax):
     L = ['CREATE 2', 'DEFDIM 0', 'CLOSE 0', 'FILL 2 %d' % nmax, 'FILL 2 2', 'CREATE 3', 'OPEN 2 0', 'SNAP', 'CLOSE 5', 'OPEN 2 1', 'NDIMS 5']
     L += ['CLOSE %d' % i for i in range(nmax)] + ['SNAP', 'LEAK']
     S.append(('enfile', L, 'leak-after-enfile'))
-    S.append(('pending-close', ['CREATE 0', 'DEFVAR 0', 'ENDDEF 0', 'IPUT 0', 'IPUT 0', 'CREATE 1', 'SNAP', 'CLOSE 0', 'SNAP', 'NDIMS 1', 'CLOSE 1', 'LEAK'], None))
+    io = ['CREATE 0', 'SETUP 0', 'ENDDEF 0']
+    # close with pending requests of BOTH kinds, several of each, fixed and record variables, large (in-place swapped) and small buffers
+    S.append(('pending-close', io + ['IOP 0 IGET fx', 'IOP 0 IPUT fx', 'IOP 0 IPUT sm', 'IOP 0 IGET sm', 'IOP 0 IPUT rc', 'IOP 0 IPUT rs', 'IOP 0 IPUT fx',
+                                     'CREATE 1', 'SNAP', 'CLOSE 0', 'SNAP', 'NDIMS 1', 'CLOSE 1', 'LEAK'], None))
+    S.append(('pending-close-gets-only', io + ['IOP 0 IGET fx', 'IOP 0 IGET sm', 'IOP 0 IGET fx', 'CLOSE 0', 'LEAK'], None))
+    S.append(('pending-close-puts-only', io + ['IOP 0 IPUT rc', 'IOP 0 IPUT sm', 'IOP 0 IPUT fx', 'CLOSE 0', 'LEAK'], None))
+    S.append(('pending-close-one-each', io + ['IOP 0 IGET sm', 'IOP 0 IPUT fx', 'CLOSE 0', 'LEAK'], None))
+    S.append(('pending-close-after-wait', io + ['IOP 0 IPUT rc', 'IOP 0 IPUT rs', 'IOP 0 IPUT fx', 'WAITALL 0', 'IOP 0 IGET rc', 'IOP 0 IGET rs', 'IOP 0 IPUT rc',
+                                                'IOP 0 IPUT fx', 'CLOSE 0', 'OPEN 0 1', 'IOP 0 IGET rc', 'IOP 0 IPUT rs', 'IOP 0 IPUT fx', 'IOP 0 IGET fx',
+                                                'CLOSE 0', 'OPEN 0 0', 'IOP 0 IGET rc', 'IOP 0 IGET fx', 'IOP 0 IPUT fx', 'CLOSE 0', 'LEAK'], None))
+    S.append(('pending-close-redef', io + ['IOP 0 IGET fx', 'IOP 0 IPUT fx', 'IOP 0 IPUT rs', 'REDEF 0', 'DEFDIM 0', 'CLOSE 0', 'LEAK'], None))
+    # iget + bput pending, buffer still attached at close (the attached buffer itself is scenario leak-attach-without-detach)
+    S.append(('pending-close-bput', io + ['ATTACH 0', 'IOP 0 BPUT fx', 'IOP 0 IGET fx', 'IOP 0 BPUT rs', 'IOP 0 BPUT sm', 'IOP 0 IGET sm', 'IOP 0 IPUT rc',
+                                          'DETACH 0', 'CLOSE 0', 'LEAK'], 'leak-attach-without-detach'))
+    S.append(('pending-wait-detach-close', io + ['ATTACH 0', 'IOP 0 BPUT fx', 'IOP 0 IGET fx', 'IOP 0 BPUT rc', 'WAITALL 0', 'DETACH 0', 'IOP 0 IGET rc',
+                                                 'IOP 0 IPUT rc', 'CLOSE 0', 'LEAK'], None))
+    # abort with pending requests
+    S.append(('pending-abort', io + ['IOP 0 IGET fx', 'IOP 0 IPUT fx', 'IOP 0 IPUT rs', 'IOP 0 IGET sm', 'CREATE 1', 'ABORT 0', 'SNAP', 'CLOSE 1', 'LEAK'],
+              'leak-abort-with-pending'))
     S.append(('attach-detach', ['CREATE 0', 'ENDDEF 0', 'ATTACH 0', 'DETACH 0', 'CLOSE 0', 'LEAK'], None))
     S.append(('attach-no-detach', ['CREATE 0', 'ENDDEF 0', 'ATTACH 0', 'CLOSE 0', 'LEAK'], 'leak-attach-without-detach'))
     L = ['CREATE 0', 'DEFDIM 0', 'DEFVAR 0', 'PUTATT 0', 'CLOSE 0', 'CREATEX 0', 'OPENJUNK', 'OPENMISSING', 'CREATEBAD 0', 'CREATEBAD 1', 'SNAP']
@@ -261,7 +347,14 @@ def run_check(tier, seed):
         nullcheck = 1 if probe.startswith('-33') else 0
         V.cov['check_id_variant'] = 'with NULL test (repaired)' if nullcheck else 'as in the source: no NULL test (F1)'
         log('[S4] stale-id probe while another file is open answers %r -> model variant nullCheck=%d' % (probe, nullcheck))
-        cfg = 'CFG %d %d' % (nullcheck, nmax)
+        # two more variants found by execution: does close free an attached buffer (C17-L2)?  does abort cancel pending requests?
+        rc, o, _ = run_c('variant2', ['CREATE 0', 'ENDDEF 0', 'ATTACH 0', 'CLOSE 0', 'LEAK'])
+        l2_fixed = len(o) > 4 and o[4] == ZERO_LEAK
+        rc, o, _ = run_c('variant3', ['CREATE 0', 'SETUP 0', 'ENDDEF 0', 'IOP 0 IGET fx', 'IOP 0 IPUT sm', 'ABORT 0'])
+        abort_cancels = len(o) > 5 and o[5].startswith('-236')
+        V.cov['abort_variant'] = 'abort cancels pending requests and reports NC_EPENDING' if abort_cancels else 'as in the source: abort ignores pending requests'
+        log('[S4] close frees an attached buffer: %s; abort cancels pending requests: %s' % (l2_fixed, abort_cancels))
+        cfg = 'CFG %d %d %d' % (nullcheck, nmax, 1 if abort_cancels else 0)
         scripts = []   # (name, lines, model answers, leak scenario, harness args)
         import resource
         hard = resource.getrlimit(resource.RLIMIT_NOFILE)[1]
@@ -288,6 +381,7 @@ def run_check(tier, seed):
         for i in range(nscr):
             p = subprocess.Popen([drv], stdin=subprocess.PIPE, stdout=subprocess.PIPE, text=True, bufsize=1)
             g = Gen(rng, p, nmax)
+            g.l2_fixed, g.abort_cancels = l2_fixed, abort_cancels
             g.send(cfg)
             g.script(nops)
             p.stdin.close(); p.wait()
@@ -333,13 +427,18 @@ def run_check(tier, seed):
                                               script=lines, impl=impl))
                     elif scen:
                         log('[S4] note: scenario %s no longer leaks' % scen)
-                elif op == 'CLOSE' and mod == '-236' and impl != mod:
+                elif op in ('CLOSE', 'ABORT', 'WAITALL') and 'bufs=CHANGED' in impl:
+                    # property oracle: the caller's put buffers are bit-identical again once the request is completed or cancelled
+                    prop_fail.append(dict(sig='put-buffer-not-restored:' + op, what='%s of ncid %s with pending put requests leaves %s of the caller\'s put buffers modified '
+                                          '(byte-swapped in place and never swapped back): %s (script %s request %d)' % (op, line.split(' ')[1], impl.split('(')[-1].rstrip(')'), impl, name, i),
+                                          script=lines[:i + 1], impl=impl))
+                elif op == 'CLOSE' and mod.startswith('-236') and not impl.startswith('-236'):
                     # property oracle: requests were pending (iput posted, no wait) -> the close must say NC_EPENDING
                     prop_fail.append(dict(sig='close-pending-not-reported', what='ncmpi_close of ncid %s with pending nonblocking requests answers %s instead of NC_EPENDING (script %s request %d)'
                                           % (line.split(' ')[1], impl, name, i), script=lines[:i + 1], impl=impl))
                 elif impl != mod:
                     tie_diffs.append(dict(script=name, index=i, line=line, impl=impl[:300], model=mod[:300]))
-                if op in ('CLOSE', 'ABORT', 'FILL', 'CREATEX', 'OPENJUNK', 'OPENMISSING', 'CREATEBAD', 'OPENTRUNC') or (impl and impl.split(' ')[0] not in ('0', 'cfg')):
+                if op in ('CLOSE', 'ABORT', 'FILL', 'IOP', 'WAITALL', 'CREATEX', 'OPENJUNK', 'OPENMISSING', 'CREATEBAD', 'OPENTRUNC') or (impl and impl.split(' ')[0] not in ('0', 'cfg')):
                     nontrivial.add(name.rstrip('0123456789') + ':' + line + ':' + impl[:40])
         log('[S4] %d scripts, %d requests replayed on the real library in %.1fs: %d property failures, %d model differences'
             % (len(scripts), evals, t2.s(), len(prop_fail), len(tie_diffs)))
